@@ -718,18 +718,18 @@ Fixpoint rep_go (k : kont -> prg) (fail_or_empty : outcome -> prg) (e body : exp
       | Err x => if is_pe (xk x) || is_index (xk x) then k (inr (loc, RPR acc)) else fail_or_empty o
       | _ => Ret Div
       end in
-    check_ender ne s loc (fun r =>
-      match r with
-      | Some o => stop o
-      | None =>
-        skip_ignorables (fun x => stop (Err x)) (length s + 2) (ign_of e) s loc (fun preloc =>
+    skip_ignorables (fun x => stop (Err x)) (length s + 2) (ign_of e) s loc (fun preloc =>
+      check_ender ne s preloc (fun r =>
+        match r with
+        | Some o => stop o
+        | None =>
           call body s preloc d true (fun o =>
             match o with
             | Ok loc' r' => if Nat.eqb loc' loc then Ret Div else rep_go k fail_or_empty e body ne s d f loc' (pr_iadd acc r')
             | Div => Ret Div
             | Err _ => stop o
-            end))
-      end)
+            end)
+        end))
   end.
 
 (* ------------------------------------------------------------------------------------------- *)
